@@ -485,6 +485,29 @@ pub fn c03(tier: &str, seed: u64) -> i32 {
             ("complete", J::Bool(st.complete)),
         ]));
     }
+    if ctx.run.violations.is_empty() {
+        // a freed slot of every value slot class (and one of every second key slot class) at a crash point:
+        // the header words that hold the free-list heads must be where the next open expects them
+        let mut vlens: Vec<u32> = crate::decoder::CLASSES.iter().map(|c| c.saturating_sub(6)).collect();
+        vlens.push(1500);
+        let mut letters = Vec::new();
+        for vi in 0..vlens.len() as u8 {
+            letters.push(Letter { kind: L_PUT, map: 0, handle: H_FIRST, key: 0, val: vi });
+        }
+        letters.push(Letter { kind: L_DEL, map: 0, handle: H_FIRST, key: 0, val: 0 });
+        letters.push(Letter { kind: L_PUT, map: 0, handle: H_FIRST, key: 1, val: 0 });
+        letters.push(Letter { kind: L_FLUSH, map: 0, handle: H_FIRST, key: 0, val: 0 });
+        letters.push(Letter { kind: L_SYNC_DATA, map: 0, handle: H_FIRST, key: 0, val: 0 });
+        let classes = BCfg { letters, depth: 3, maps: vec![std_map(KtId::Bytes, 8, 2, 9, seed, "m")], val_lens: vlens, ..cfg.clone() };
+        let t0 = ctx.run.elapsed();
+        let st = explore_with(&classes, &mut ctx, JOB_C03_RUN, if thorough { 120.0 } else { 10.0 });
+        eprintln!("[C03] slot classes at crash points: sequences={} calls={} complete={} {:.1}s", st.sequences, st.calls, st.complete, ctx.run.elapsed() - t0);
+        ctx.runs.push(J::obj(vec![
+            ("label", J::s("every sequence of depth 3 over put k0 with a value of each slot class (17 lengths) / delete k0 / put k1 / flush / sync_data: freed slots of every class are on the free lists at a crash point")),
+            ("sequences", J::Int(st.sequences as i64)),
+            ("complete", J::Bool(st.complete)),
+        ]));
+    }
     for pick in [[0u8, 8, 1, 10], [4, 0, 14, 3], [7, 2, 13, 9]] {
         ctx.run.sample(J::Arr(pick.iter().map(|li| J::s(&cfg.label(&cfg.letters[*li as usize]))).collect()));
     }
